@@ -124,6 +124,7 @@ type World struct {
 	llJSON       [2][]byte
 	llWhich      int
 	llStolen     bool          // a direct RefreshLogList ran at some point of the run: which list the refresher last saw - and so whether the next change of the file looks like a change to it - can no longer be told; the proxy's list is not judged from then on
+	drain        *drainGroup   // lockstep spec: concurrent SetLogWeight(log, 0) calls on a group of their own
 	llSteals     bool          // per run: direct RefreshLogList calls are part of the workload (half of the proxy runs)
 	rootFlips    int           // lockstep spec: how often a log has changed its accepted roots
 	rootsSettled bool          // ... and the proxy's machinery has run to completion since the last such change
